@@ -15,13 +15,14 @@ import (
 // ---- reference semantics (independent of regexp) -------------------------------------
 
 type tok struct {
-	kind byte // 'l' literal, '*' star, 'S' doublestar, '?' any one
-	c    byte
+	kind byte // 'l' literal, '*' star, 'S' doublestar, '?' any one character
+	c    rune
 }
 
 // parseRef parses a pattern; ok=false for patterns outside the stated semantics
 // (trailing backslash, escapes of ordinary characters, unescaped brackets).
-func parseRef(p string) (toks []tok, ok bool) {
+func parseRef(ps string) (toks []tok, ok bool) {
+	p := []rune(ps)
 	for i := 0; i < len(p); i++ {
 		switch c := p[i]; c {
 		case '\\':
@@ -54,18 +55,20 @@ func parseRef(p string) (toks []tok, ok bool) {
 	return toks, true
 }
 
-func matchRef(t []tok, s string) bool {
+func matchRef(t []tok, str string) bool { return matchRunes(t, []rune(str)) }
+
+func matchRunes(t []tok, s []rune) bool {
 	if len(t) == 0 {
-		return s == ""
+		return len(s) == 0
 	}
 	switch t[0].kind {
 	case 'l':
-		return s != "" && s[0] == t[0].c && matchRef(t[1:], s[1:])
+		return len(s) != 0 && s[0] == t[0].c && matchRunes(t[1:], s[1:])
 	case '?':
-		return s != "" && matchRef(t[1:], s[1:])
+		return len(s) != 0 && matchRunes(t[1:], s[1:])
 	case '*':
 		for i := 0; ; i++ {
-			if matchRef(t[1:], s[i:]) {
+			if matchRunes(t[1:], s[i:]) {
 				return true
 			}
 			if i >= len(s) || s[i] == '/' {
@@ -74,7 +77,7 @@ func matchRef(t []tok, s string) bool {
 		}
 	case 'S':
 		for i := 0; i <= len(s); i++ {
-			if matchRef(t[1:], s[i:]) {
+			if matchRunes(t[1:], s[i:]) {
 				return true
 			}
 		}
@@ -171,6 +174,32 @@ func main() {
 	})
 	r.Sample(map[string]any{"patterns": []string{pats[len(pats)/2]}, "paths": paths[len(paths)/3 : len(paths)/3+3]})
 
+	// (1b) characters outside ASCII, literal and matched by wildcards ("?" is one character, not one byte)
+	{
+		uTok := []string{"é", "a", "*", "?", "/", "😀", "**"}
+		uPath := []string{"é", "a", "/", "😀", "Ã"}
+		upats := allSeqs(uTok, 3, 1)
+		upaths := allSeqs(uPath, 4, 1)
+		r.Parallel(len(upats), func(i int) {
+			p := upats[i]
+			toks, ok := parseRef(p)
+			if !ok {
+				return
+			}
+			re, err := util.CompileGlobs([]string{p, "zzz"})
+			if err != nil {
+				r.Violation("C17:valid-pattern-rejected", fmt.Sprintf("CompileGlobs(%q) = %v", p, err), replay{Patterns: []string{p}, Impl: err.Error(), Ref: "valid"})
+				return
+			}
+			for _, s := range upaths {
+				want, got := matchRef(toks, s), re.MatchString(s)
+				evals.Add(1)
+				if got != want {
+					r.Violation("C17:non-ascii-mismatch", fmt.Sprintf("pattern %q path %q: impl=%v reference=%v", p, s, got, want), replay{[]string{p, "zzz"}, s, got, want})
+				}
+			}
+		})
+	}
 	// (2) lists of 0..3 patterns from a pool
 	pool := []string{"a", "b", "*", "**", "?", "a*", "*b", "a/b", "*/a", "**/b", "a/**", "?/a", "a.b", "*.a", `\*`, `a\?`,
 		"ab", "ba", "/", "a/", "/b", "*/", "/*", "**/", "a?", "?b", "??", "a/*", "*/*", "**a", "b**", "a+", ".", "..", "*.*",
